@@ -51,7 +51,7 @@ func runInterleaved(tag string, frames []Frame, steps int, next func(step int, p
 			break
 		}
 		pool, nrows := r.snapshot()
-		h.Steps = append(h.Steps, StepObs{Op: *o, Out: out, Pool: pool, Nrows: nrows})
+		h.Steps = append(h.Steps, StepObs{Op: *o, Out: out, Pool: pool, Nrows: nrows, Shared: sharedArrays(r.pool)})
 		cur = pool
 	}
 	r.buildOracles(&h)
